@@ -160,18 +160,22 @@ Example C01_contract_example_64k :
 Proof. split; [|vm_compute; reflexivity].
   unfold handover_ok, geometry_ok. repeat split; try (exists 16; repeat split); try discriminate; try reflexivity. Qed.
 
-(* ---- why the contract stops before the last term (term count 2^31 - 1): known finding last-term-exclusive-overwrite.
+(* ---- the last term of the position space (term count 2^31 - 1), after fixes/C01-excl-last-term.diff.
    ExclusivePublication, hand-over 64 bytes before the end of the last term: offer 1 (100 bytes) does not fit -
-   MaxPositionExceeded, padding to the term end; the subscriber consumes the padding; offer 2 (8 bytes) is ACCEPTED over
-   the padding (returns the end of the position space) and is never delivered: the final poll finds nothing, both
-   positions are equal, accepted has one message, delivered none.  The real ExclusivePublication does the same
-   (corpus/C01/last-term-exclusive-overwrite.json). ---- *)
-Example C01_last_term_exclusive_witness :
+   MaxPositionExceeded, padding to the term end, and the publication is now at the end of the position space; the subscriber
+   consumes the padding; offer 2 (8 bytes) is refused too (before the fix it was ACCEPTED over the padding and never
+   delivered: corpus/C01/last-term-exclusive-overwrite.json).  Nothing accepted, nothing delivered, both positions at the
+   end, and the oracle - which follows position() on MaxPositionExceeded - holds on these observations although the
+   history is outside `contract` (see docs/reports/C01.md for why the theorems still stop before the last term). ---- *)
+Example C01_last_term_exclusive_regression :
   exists s0, sys0_exclusive 0 1024 64 11 22 2147483647 960 = Ok s0 /\
   let ops := [SSetLimit 2199023256512; SSetConnected true; SOffer 1 100; SPoll 10; SOffer 2 8; SPoll 10; SPoll 10] in
   let sp := spec_run (sgeom_of 1024 64 2147483647 960) spec0 (sys_events exclusive Release harness_rv s0 ops) in
-  map snd (sp_acc sp) = [2199023255552] /\ sp_del sp = [] /\
+  map fst (map snd (sys_trace exclusive Release harness_rv s0 ops)) =
+    [(Ok 0, []); (Ok 0, []); (Err MaxPositionExceeded, []); (Ok 0, []); (Err MaxPositionExceeded, []); (Ok 0, []); (Ok 0, [])] /\
+  sp_acc sp = [] /\ sp_del sp = [] /\
   im_pos (sy_img (sys_run exclusive Release harness_rv s0 ops)) = 2199023255552 /\
   xpub_position Release (sy_pub (sys_run exclusive Release harness_rv s0 ops)) = Ok 2199023255552 /\
+  holds_c01 (mkC01Geom 1024 64 0 2147483647 960 11) ops (sys_observe exclusive Release harness_rv s0 ops) = true /\
   contract exclusive Release harness_rv s0 ops = false.
 Proof. eexists. split; [reflexivity|]. vm_compute. repeat split; reflexivity. Qed.
